@@ -19,6 +19,8 @@ open Icinga Icinga.C04 Icinga.Proto
 structure CSt where
   m : Chk := {}
   enabled : Bool := true
+  isService : Bool := false
+  reschedAt : Option Int := none   -- probe wakeup_resched: when an idle entry behind the front was re-keyed to "due"
   checkUs : Int := 0
   retryUs : Int := 0
   op : Option String := none
@@ -86,6 +88,17 @@ structure DSt where
   notifiedSinceSilent : Bool := true   -- a section that calls m_CV.notify_all() ran since that helper section
   wakeup : Bool := false               -- scripted wake-up probe (script=wakeup / wakeup_async)
   wakeupAsync : Bool := false
+  wakeupResched : Bool := false
+  wakeReschedMedianUs : Int := 0
+  reschedUnanswered : Nat := 0        -- probe wakeup_resched: entries made due that were not taken before the harness gave up waiting (8 s)
+  passives : Nat := 0                 -- passive results processed during the run (script=passive_during_check)
+  eligRecent : Nat := 0               -- decisions less than 3 ms after a write of one of the guard set's facts (taken as they are)
+  svcPicks : Nat := 0                 -- dispatches of services
+  depSkips : Nat := 0                 -- skips because an explicit disable_checks dependency had failed
+  globalSkips : Nat := 0              -- skips because the global flag of the object's type was off
+  periodSkips : Nat := 0
+  ownSkips : Nat := 0
+  foreign : Nat := 0                  -- checkables in a foreign zone (never this node's to schedule)
   wakeAsyncMedianUs : Int := 0
   wakeDelays : Array Int := #[]        -- probe: delay from a silent helper section to the next scheduler section
   wakeSamples : Nat := 0
@@ -222,7 +235,13 @@ def handleSched (d : DSt) (n : Nat) (kind : String) (c : Nat) (args obs : List S
     match parseBool? i, parseBool? p, parseInt? key, parseInt? now with
     | some i, some p, some key, some now =>
       let mut d := { d with reindex := d.reindex + 1, notifiedSinceSilent := true }
-      d := setM d c fun cs => { cs with dueFrom := max key now }
+      -- probe wakeup_resched: an entry that was made due and is re-keyed again without having been taken counts with the time it waited
+      if d.wakeupResched then
+        match cst.reschedAt with
+        | some t => d := { d with wakeDelays := d.wakeDelays.push (now - t), reschedUnanswered := d.reschedUnanswered + 1 }
+        | none => pure ()
+      d := setM d c fun cs => { cs with dueFrom := max key now,
+                                        reschedAt := if d.wakeupResched && key ≤ now then some now else none }
       if !cst.m.inIdle then
         d ← mismatch d n "nc-not-idle" c s!"{showBool i},{showBool p}" (showLoc cst.m)
       match act d (.setNextCheck c key) c with
@@ -234,11 +253,18 @@ def handleSched (d : DSt) (n : Nat) (kind : String) (c : Nat) (args obs : List S
       d ← compareLoc d n "nc" c i p key
       spec d n c [.loc c i p]
     | _, _, _, _ => IO.println s!"BADLINE line={n}"; return d
-  | "pick", [f], [i, p, key, now, cnt] | "skip", [f], [i, p, key, now, cnt] =>
-    match parseBool? f, parseBool? i, parseBool? p, parseInt? key, parseInt? now, parseInt? cnt with
-    | some f, some i, some p, some key, some now, some cnt =>
+  | "pick", [f], [i, p, key, now, cnt, own, gh, gs, per, dep, recent] | "skip", [f], [i, p, key, now, cnt, own, gh, gs, per, dep, recent] =>
+    match parseBool? f, parseBool? i, parseBool? p, parseInt? key, parseInt? now, parseInt? cnt,
+          [own, gh, gs, per, dep, recent].map parseBool? with
+    | some f, some i, some p, some key, some now, some cnt, [some own, some gh, some gs, some per, some dep, some recent] =>
       let isPick := kind == "pick"
-      let mut d := d
+      -- the facts the guard set reads, as the HARNESS knows them (its own bookkeeping, read under the checker's mutex); when one of
+      -- them was written less than 3 ms before, the decision is taken as it is (facts that make the model decide the same way)
+      let inp : SkipIn :=
+        if recent then (if isPick then { isService := cst.isService } else { isService := cst.isService, own := false })
+        else { isService := cst.isService, depOk := dep, own := own, hostChecks := gh, svcChecks := gs, inPeriod := per }
+      let elig := eligible inp.isService inp.own inp.hostChecks inp.svcChecks inp.inPeriod inp.depOk
+      let mut d := if recent then { d with eligRecent := d.eligRecent + 1 } else d
       -- a force request that raced with the scheduler's clearing of the flag: take the implementation's word
       if cst.forcedAmb then
         d := setM d c fun cs => { cs with m := { cs.m with forced := if isPick then f else false }, forcedAmb := false }
@@ -273,16 +299,16 @@ def handleSched (d : DSt) (n : Nat) (kind : String) (c : Nat) (args obs : List S
         d := { d with noWakeups := d.noWakeups + 1 }
         if d.noWakeupCand.isNone then
           d := { d with noWakeupCand := some (n, c, lateness, now - d.silentFinNow) }
-      if d.wakeup && d.silentFinNow > d.lastSchedNow then d := { d with wakeDelays := d.wakeDelays.push (now - d.silentFinNow) }
+      if d.wakeup && !d.wakeupResched && d.silentFinNow > d.lastSchedNow then d := { d with wakeDelays := d.wakeDelays.push (now - d.silentFinNow) }
       d := { d with lastSchedNow := now }
-      let modelSkips := Chk.skips (d.cs.getD c {}).m.forced true cst.enabled true
+      let modelSkips := Chk.skipsIn (d.cs.getD c {}).m.forced inp
       if modelSkips == isPick then
         d ← mismatch d n "decision" c (if isPick then "dispatch" else "skip") (if modelSkips then "skip" else "dispatch")
         -- follow the implementation
         d := setM d c fun cs => { cs with m := if isPick then cs.m.pick else cs.m.skip }
         if isPick then d := { d with counter := d.counter + 1 }
       else
-        match act d (.sched c now true cst.enabled true) c with
+        match act d (.sched c now inp) c with
         | some d' => d := d'
         | none => d := setM d c fun cs => { cs with m := if isPick then cs.m.pick else cs.m.skip }
       d ← compareLoc d n kind c i p key
@@ -292,13 +318,20 @@ def handleSched (d : DSt) (n : Nat) (kind : String) (c : Nat) (args obs : List S
           { cs with picksN := k, ambUntil := if f then k else cs.ambUntil }
         d := latency d lateness
         d := { d with picks := d.picks + 1, forcedPicks := d.forcedPicks + (if f then 1 else 0),
-                      caseForced := d.caseForced + (if f then 1 else 0) }
+                      caseForced := d.caseForced + (if f then 1 else 0), svcPicks := d.svcPicks + (if cst.isService then 1 else 0) }
         let _ := cnt
-        spec d n c [.slot slotBefore d.max, .decision c forcedModel false, .loc c i p]
+        -- probe wakeup_resched: how long after it was re-keyed to "due" the entry was taken
+        match (d.cs.getD c {}).reschedAt with
+        | some t => d := { setM d c (fun cs => { cs with reschedAt := none }) with wakeDelays := d.wakeDelays.push (now - t) }
+        | none => pure ()
+        spec d n c [.slot slotBefore d.max, .decision c forcedModel false elig, .loc c i p]
       else
-        d := { d with skips := d.skips + 1, caseSkips := d.caseSkips + 1 }
-        spec d n c [.decision c forcedModel true, .loc c i p]
-    | _, _, _, _, _, _ => IO.println s!"BADLINE line={n}"; return d
+        d := { d with skips := d.skips + 1, caseSkips := d.caseSkips + 1,
+                      depSkips := d.depSkips + (if dep then 0 else 1), periodSkips := d.periodSkips + (if per then 0 else 1),
+                      ownSkips := d.ownSkips + (if own then 0 else 1),
+                      globalSkips := d.globalSkips + (if (if cst.isService then gs else gh) then 0 else 1) }
+        spec d n c [.decision c forcedModel true elig, .loc c i p]
+    | _, _, _, _, _, _, _ => IO.println s!"BADLINE line={n}"; return d
   | "gE", _, _ | "gB", _, _ =>
     let busy := kind == "gB"
     let mut d := d
@@ -311,11 +344,19 @@ def handleSched (d : DSt) (n : Nat) (kind : String) (c : Nat) (args obs : List S
     d := setM d c fun cs => { cs with guardsN := cs.guardsN + 1 }
     if busy then d := { d with busy := d.busy + 1, caseBusy := d.caseBusy + 1 }
     return d
+  | "pr", _, _ =>
+    -- a passive result is processed (F-C04c, fixed by 1c45f06): it does not touch the single-flight flag, so no `gR` follows
+    match act { d with passives := d.passives + 1 } (.passiveResult c) c with
+    | some d => return d
+    | none => mismatch d n "passive-result" c "-" "not-enabled"
   | "gR", _, _ =>
     -- ProcessCheckResult reset the flag: the result of a finished plugin process, or of the command body in the helper
     match act d (if cst.m.pz > 0 then .procResult c else .result c) c with
     | some d => return d
-    | none => mismatch d n "result-without-execution" c "-" "hx=0,pz=0"
+    | none =>
+      -- the flag was reset although no execution of `c` can deliver a result now: follow the implementation
+      let d ← mismatch d n "result-without-execution" c "-" "hx=0,pz=0"
+      return setM d c fun cs => { cs with m := { cs.m with running := false } }
   | "as", _, _ =>
     match act d (.spawn c) c with
     | some d => return { d with asyncExecs := d.asyncExecs + 1 }
@@ -382,23 +423,30 @@ def handle (d : DSt) (n : Nat) (line : String) : IO DSt := do
   | "C" :: k :: "sched" :: rest =>
     let d := closeCase d
     let d := { d with caseNo := (parseNat? k).getD (d.caseNo + 1), cases := d.cases + 1, caseReported := 0, caseReportedSpec := 0,
-                      caseBusy := 0, caseForced := 0, caseSkips := 0, noWakeupCand := none, notifiedSinceSilent := true,
+                      caseBusy := 0, caseForced := 0, caseSkips := 0, reschedUnanswered := 0, noWakeupCand := none, notifiedSinceSilent := true,
                       silentFinNow := 0, lastSchedNow := 0 }
     match (kvGet rest "max") >>= parseInt?, (kvGet rest "n") >>= parseNat?, (kvGet rest "pool") >>= parseNat?,
           (kvGet rest "bound_ms") >>= parseInt? with
     | some mx, some nn, some pool, some bound =>
-      return { d with sched := true, wakeup := kvGet rest "script" == some "wakeup" || kvGet rest "script" == some "wakeup_async",
-                      wakeupAsync := kvGet rest "script" == some "wakeup_async", wakeDelays := #[],
+      return { d with sched := true, wakeup := kvGet rest "script" == some "wakeup" || kvGet rest "script" == some "wakeup_async" ||
+                        kvGet rest "script" == some "wakeup_resched",
+                      wakeupAsync := kvGet rest "script" == some "wakeup_async",
+                      wakeupResched := kvGet rest "script" == some "wakeup_resched", wakeDelays := #[],
                       schedCases := d.schedCases + 1, max := mx, counter := 0, boundUs := bound * 1000,
                       sp := { max := mx }, cs := Array.replicate (nn + pool) {} }
     | _, _, _, _ =>
       -- the scenario process produced nothing (crash) or the header is malformed
       IO.println s!"MISMATCH line={n} case={d.caseNo} op=scenario-did-not-run cid=0 impl={String.intercalate "_" rest} model=-"
       return { d with sched := false, mismatches := d.mismatches + 1, cs := #[] }
-  | "K" :: c :: en :: iv :: rv :: _ =>
+  | "K" :: c :: en :: iv :: rv :: more =>
     match parseNat? c, parseBool? en, parseInt? iv, parseInt? rv with
     | some c, some en, some iv, some rv =>
-      return setM d c fun cs => { cs with enabled := en, checkUs := iv, retryUs := rv }
+      -- K <cid> <enabled> <check_us> <retry_us> <async> <service> <foreign_zone>
+      let svc := (more.getD 1 "0") == "1"
+      let foreignZone := (more.getD 2 "0") == "1"
+      let d := if foreignZone then { d with foreign := d.foreign + 1 } else d
+      return setM d c fun cs => { cs with enabled := en, checkUs := iv, retryUs := rv, isService := svc,
+                                          m := { cs.m with localZone := !foreignZone } }
     | _, _, _, _ => IO.println s!"BADLINE line={n}"; return d
   | "E" :: kind :: c :: args =>
     match parseNat? c with
@@ -434,15 +482,31 @@ def handle (d : DSt) (n : Nat) (line : String) : IO DSt := do
     if geti "hang" != 0 then d ← specName d n 0 "liveness_hang"
     if geti "overlap" != 0 then d ← specName d n 0 "monitor_single_flight"
     if geti "max_parallel" > d.max then d ← specName d n 0 "monitor_concurrency_bound"
-    if geti "counter_end" != 0 || (d.counter != 0 && geti "hang" == 0) then
+    -- nothing is in flight any more (every helper finished, every process delivered): the implementation's own counter
+    if geti "hang" == 0 then d ← spec d n 0 [.quiescentCounter (geti "counter_end")]
+    if d.counter != 0 && geti "hang" == 0 && geti "counter_end" == 0 then
       d ← mismatch d n "counter-at-quiescence" 0 s!"{geti "counter_end"}" s!"{d.counter}"
     let overdue := geti "overdue_max_us"
     let canary := geti "canary_max_us"
     -- scripted probe (F-C04a, fixed by 31ee201): the slot freed by a helper whose checkable had left the pending set must wake
     -- the scheduler at once, not only its 0.5 s poll; the median over the repetitions is robust against single stalls of the machine
-    if d.wakeup then
+    if d.wakeupResched then
+      -- ORDER-based verdict, no wall-clock margin: an idle entry behind the front that is rescheduled to "now" must be taken without any
+      -- further event; the harness waits 8 s for that before it goes on (and gives up after two such waits).  Unanswered = re-keyed again,
+      -- or still waiting at the end, without having been taken.
       let sorted := d.wakeDelays.qsort (· < ·)
-      if sorted.size ≥ 6 then
+      let pending := d.cs.foldl (fun k cs => if cs.reschedAt.isSome then k + 1 else k) 0
+      let unanswered := d.reschedUnanswered + pending
+      d := { d with wakeSamples := d.wakeSamples + sorted.size, wakeReschedMedianUs := max d.wakeReschedMedianUs (sorted.getD (sorted.size / 2) 0) }
+      if unanswered ≥ 2 then
+        if canary < 4000000 then
+          IO.println s!"SPECFAIL line={n} case={d.caseNo} clause=liveness_wakeup_when_rescheduled cid=1 unanswered={unanswered} taken={sorted.size}"
+          d := { d with specfails := d.specfails + 1 }
+        else d := { d with livenessInconclusive := d.livenessInconclusive + 1 }
+    else if d.wakeup then
+      let sorted := d.wakeDelays.qsort (· < ·)
+      -- a wall-clock verdict (0.5 s poll against an immediate wake-up): only when this scenario's own canaries saw no stall
+      if sorted.size ≥ 6 && canary < 100000 then
         let med := sorted.getD (sorted.size / 2) 0
         d := { d with wakeSamples := d.wakeSamples + sorted.size }
         if d.wakeupAsync then d := { d with wakeAsyncMedianUs := max d.wakeAsyncMedianUs med }
@@ -495,4 +559,4 @@ def main : IO Unit := do
     s!"ops={d.ops} forces={d.forces} force_ambiguous={d.forceAmb} quiescent={d.quiescent} " ++
     s!"lat_lt1ms={d.lat1ms} lat_lt10ms={d.lat10ms} lat_lt100ms={d.lat100ms} lat_lt1s={d.lat1s} lat_ge1s={d.latMore} lat_max_us={d.latMaxUs} " ++
     s!"overdue_max_us={d.overdueMaxUs} canary_max_us={d.canaryMaxUs} max_parallel={d.maxParallel} " ++
-    s!"liveness_inconclusive={d.livenessInconclusive} late_after_silent_finish={d.noWakeups} wakeup_probe_samples={d.wakeSamples} wakeup_probe_median_us={d.wakeMedianUs} wakeup_async_probe_median_us={d.wakeAsyncMedianUs} liveness_candidates={d.liveCands.size} nontrivial={d.nontrivial} mismatches={d.mismatches} specfails={d.specfails}")
+    s!"liveness_inconclusive={d.livenessInconclusive} late_after_silent_finish={d.noWakeups} wakeup_probe_samples={d.wakeSamples} wakeup_probe_median_us={d.wakeMedianUs} wakeup_async_probe_median_us={d.wakeAsyncMedianUs} wakeup_resched_probe_median_us={d.wakeReschedMedianUs} decisions_right_after_toggle={d.eligRecent} passive_results={d.passives} service_picks={d.svcPicks} skips_dependency={d.depSkips} skips_global_flag={d.globalSkips} skips_period={d.periodSkips} skips_own_flag={d.ownSkips} foreign_zone={d.foreign} liveness_candidates={d.liveCands.size} nontrivial={d.nontrivial} mismatches={d.mismatches} specfails={d.specfails}")
